@@ -59,9 +59,21 @@ class DirDBM:
             # but before renaming the replacement entry.
             #
             # NOTE: '.' is NOT in the base64 alphabet!
-            for f in glob.glob(self._dnamePath.child("*.new").path):
+            #
+            # The name of the directory is not a pattern: escape it, or a
+            # directory called e.g. "db[1]" would never be recovered (and
+            # "db*" would "recover" its neighbours as well).
+            # (The pattern is built by FilePath so that it is bytes or text
+            # like the name the database was opened with.)
+            def leftovers(extension):
+                directory, pattern = os.path.split(
+                    self._dnamePath.child("*" + extension).path
+                )
+                return glob.glob(os.path.join(glob.escape(directory), pattern))
+
+            for f in leftovers(".new"):
                 os.remove(f)
-            replacements = glob.glob(self._dnamePath.child("*.rpl").path)
+            replacements = leftovers(".rpl")
             for f in replacements:
                 old = f[:-4]
                 if os.path.exists(old):
